@@ -547,6 +547,57 @@ theorem evalAt_last {l : List Src} (h : 1 ≤ l.length) :
   have : l.length - 1 < l.length := by omega
   simp [List.getElem?_eq_getElem this]
 
+theorem testBit_sar (w a s k : Nat) (ha : a < 2 ^ w) (hs : s < w) (hk : k < w) :
+    (sar w a s).testBit k = if k < w - s then a.testBit (k + s) else a.testBit (w - 1) := by
+  unfold sar
+  rw [Nat.testBit_or, Nat.testBit_shiftRight]
+  by_cases h1 : k < w - s
+  · have hno : ((if a.testBit (w - 1) = true then (2 ^ s - 1) <<< (w - s) else 0).testBit k) = false := by
+      split
+      · rw [Nat.testBit_shiftLeft]; simp; omega
+      · simp
+    rw [hno, if_pos h1, Nat.add_comm]; simp
+  · have hhi : a.testBit (s + k) = false := Nat.testBit_lt_two_pow (Nat.lt_of_lt_of_le ha (Nat.pow_le_pow_right (by omega) (by omega)))
+    rw [hhi, if_neg h1]
+    split
+    · rename_i hb
+      rw [Nat.testBit_shiftLeft, Nat.testBit_two_pow_sub_one]
+      have h2 : k ≥ w - s := by omega
+      have h3 : k - (w - s) < s := by omega
+      simp [h2, h3, hb]
+    · rename_i hb; simp at hb ⊢; exact hb
+
+theorem sar_lt (w a s : Nat) (ha : a < 2 ^ w) (hs : s < w) : sar w a s < 2 ^ w := by
+  unfold sar
+  apply Nat.or_lt_two_pow
+  · exact Nat.lt_of_le_of_lt (Nat.shiftRight_le _ _) ha
+  · split
+    · have : (2 ^ s - 1) <<< (w - s) < 2 ^ (s + (w - s)) := by
+        rw [Nat.shiftLeft_eq, Nat.pow_add]
+        exact Nat.mul_lt_mul_of_pos_right (by have := Nat.two_pow_pos s; omega) (Nat.two_pow_pos _)
+      have e : s + (w - s) = w := by omega
+      rw [e] at this; exact this
+    · exact Nat.two_pow_pos _
+
+/-- arithmetic shift right on symbolic bits: drop the low positions, repeat the sign position at the top -/
+theorem den_sar {a : List Src} {n sv : Nat} (ha : a.length = n) (hs : sv < n) :
+    den raw fv (a.drop sv ++ List.replicate sv (a.getLast?.getD (.c false))) = sar n (den raw fv a) sv := by
+  symm
+  have hl : (a.drop sv ++ List.replicate sv (a.getLast?.getD (.c false))).length = n := by simp [ha]; omega
+  have hd : den raw fv a < 2 ^ n := by rw [← ha]; exact den_lt _ _ _
+  apply eq_of_evalAt
+  · rw [hl]; exact sar_lt _ _ _ hd hs
+  · intro k hk
+    rw [hl] at hk
+    rw [testBit_sar _ _ _ _ hd hs hk, evalAt_append, List.length_drop, ha, evalAt_drop, evalAt_replicate]
+    by_cases h1 : k < n - sv
+    · simp only [h1, if_true]; rw [testBit_den, Nat.add_comm]
+    · simp only [h1, if_false]
+      have h2 : k - (n - sv) < sv := by omega
+      have e := evalAt_last (raw := raw) (fv := fv) (l := a) (by omega)
+      rw [ha] at e
+      rw [testBit_den, e]; simp [h2]
+
 theorem den_cast {t ty : ITy} {l : List Src} (hl : l.length = t.bits) :
     den raw fv (castS t ty l) = castBits t ty (den raw fv l) ∧ (castS t ty l).length = ty.bits := by
   have hpos := t.bits_pos
